@@ -61,6 +61,13 @@ def gen_table(rnd, dynamics, allow=None, nprocs=None, maxtime=None, maxacts=3, s
             for _ in range(rnd.randrange(0, 4)):
                 evs.append({'kind': rnd.choice(['elem', 'elem', 'fixed']), 'locus': rnd.choice(own),
                             'p': rnd.choice(ps), 'prog': rnd.randrange(nprogs)})
+        # events on a SIBLING's locus (handed over as a Locus object, the documented way for components of a sequence to
+        # cooperate): only on loci of earlier components, which exist when this one is built; such a component may own no locus
+        earlier = [li for li in range(nloci) if loci[li]['owner'] < pi]
+        if earlier and rnd.random() < 0.35:
+            for _ in range(rnd.randrange(1, 3)):
+                evs.append({'kind': rnd.choice(['elem', 'elem', 'fixed']), 'locus': rnd.choice(earlier),
+                            'p': rnd.choice(ps), 'prog': rnd.randrange(nprogs)})
         setup = []
         if setup_posts:
             sa = [a for a in allow if a in ('post', 'unpost', 'query', 'postpast')] or ['post']
@@ -156,7 +163,11 @@ def c_obs(o):
     if k == 'handler':
         return '(OHandler %s %s %s %s %s)' % (L.nat(o[1]), L.q(o[2]), L.q(o[3]), c_elem(o[4]), L.opt(o[5], L.b))
     if k == 'tap':
-        return '(OTap %s %s %s %s)' % (L.q(o[1]), L.nat(max(0, o[2])) if o[2] >= 0 else '4999%nat', c_name(o[3]), c_elem(o[4]))
+        # the library reports the process of the LOCUS; for an event on a sibling's locus the model's tap carries the
+        # registrant, which the event name encodes (ev<process>_<index>)
+        m = re.match(r'ev(\d+)_(\d+)$', o[3] or '')
+        pi = int(m.group(1)) if m else o[2]
+        return '(OTap %s %s %s %s)' % (L.q(o[1]), L.nat(max(0, pi)) if pi >= 0 else '4999%nat', c_name(o[3]), c_elem(o[4]))
     if k == 'posted':
         return '(OPosted %s %s)' % (L.nat(o[1]), L.q(o[2]))
     if k == 'postedrep':
